@@ -81,7 +81,7 @@ func semCfg() *mrogen.ProgCfg {
 
 func semCfgFull() *mrogen.ProgCfg {
 	return &mrogen.ProgCfg{MaxStages: 4, MaxPipelines: 3, MaxCalls: 4, MapCalls: true, Disabled: true, SplitStage: true,
-		Preflight: true, NoFiles: true, Assignable: refsem.Assignable,
+		Preflight: true, NoFiles: true, Views: true, Assignable: refsem.Assignable,
 		Values: mrogen.ValueCfg{NullPct: 5, PlainStrings: true, SafeKeys: false, PlainNumbers: true}}
 }
 
